@@ -2,7 +2,7 @@
 """Regenerates MANIFEST.json from the table below (kept in one place so it stays valid)."""
 import json
 
-REPO_FIXES = ["7e35490", "ecea711", "fc01ecc", "bc9cd84"]
+REPO_FIXES = ["7e35490", "ecea711", "fc01ecc", "cd27f47", "bc9cd84"]
 TECH = "bounded symbolic execution of the real Python code on z3 real proxies (own engine vf.symx) + SMT (z3; UF abstraction with exact NRA refinement); counterexamples replayed concretely"
 CLAIMED = {
     "C01": ("unit level: every _solv_outp_volt/_solv_inp_curr of the 11 kinds (const / 1-D / 2-D tables, phase modes, off flags, PMux k<=3) "
@@ -21,6 +21,13 @@ CLAIMED = {
     "C07": ("real solve() aggregation (Domain attribution, Subsystem / total / average rows, energy) on proxies compared cell by cell with a spec "
             "interpreter over the harness's own tree description, for multi-source and mux shapes in several insertion orders, with phases.",
             "Floats as reals; contract shims; efficiency cells only for non-overloaded states; shape catalogue bound.", "4/C07"),
+    "C06": ("real set_sys_phases/set_comp_phases/solve(phase=) with concrete phase configurations and symbolic durations, parameters and per-phase load "
+            "values: per phase the rows satisfy the law oracle (phase value / sleep value / activity lists) and the dead-rail oracle; solve(phase=p) equals "
+            "the rows of p in the all-phase table cell by cell; unknown phase rejected.",
+            "Floats as reals; contract shims; 2 (3) phases; shape catalogue bound; all-phase runs on <= 4-node shapes.", "4/C06"),
+    "C08": ("real rail_rep() vs real solve() on one arbitrary converged iterate: per phase and rail voltage = owner's Vout, current/power/loss = sums over "
+            "the spec's members (PMux towards its selected input), warning cell = union of member warnings, rails with consumers listed, no rails => solve().",
+            "Floats as reals; contract shims; warning texts injected as concrete strings; shape catalogue bound.", "4/C08"),
     "C09": ("real _solv_get_warns/_get_warns/_get_limits on proxies: per key 'flagged <=> documented-applicable and outside [min,max]' (magnitude, tp signed) "
             "with symbolic limits and quantities, defaults, phase-silence; system level per-row cells and Subsystem/total roll-up with the real warning code.",
             "Floats as reals; supplied keys 1 (quick) / 2 (thorough) at a time; other quantities assumed inside default limits.", "4/C09"),
